@@ -39,6 +39,13 @@ def run(ctx):
                 sp['opts']['grid2'] = g
             except Exception:
                 sp['opts']['grid2'] = None
+    for sp in specs:
+        rng = random.Random(str(sp['seed']) + '/dates')
+        for a in sp['assets']:
+            for key in ('max_take', 'min_take', 'min_cap', 'max_cap', 'extra_costs'):
+                if isinstance(a.get(key), dict) and 'dates_as' not in a[key] and rng.random() < 0.5:
+                    a[key]['dates_as'] = rng.choice(['datetime64[s]', 'datetime64[m]', 'datetime64[ns]', 'datetime64[ms]', 'DatetimeIndex', 'DatetimeIndex_aware'])
+                    a[key]['as_array'] = rng.random() < 0.5
     for k, name in enumerate(SPECIAL):
         specs.append({'id': 'c11s_%s' % name, 'seed': 'c11s_%s' % name, 'opts': {'special': name}, 'prices': {}, 'assets': [],
                       'grid': {'start': '2021-01-04 00:00', 'end': '2021-01-04 08:00', 'freq': 'h', 'unit': 'h', 'tz': None, 'T': 8}})
